@@ -116,6 +116,18 @@ def qs_cases(tier, rng):
             v = "".join(rng.choice("ab &=+%;/?#.~-_1") for _ in range(rng.randrange(0, 4)))
             ps.append([k, v])
         yield "query-string-random", ["qs", ps]
+    # raw query strings as a client may send them, incl. percent-escapes that are not UTF-8 (%FF, a truncated %C3,
+    # %ED%A0%80), given as text and as bytes: the mapping parsed from its own string form equals itself
+    toks = ["a", "=", "&", "+", "%20", "%26", "%C3%A9", "\u00e9", "%FF", "%C3", "%", "%ED%A0%80", "%E9"]
+    import itertools as _it
+    for n in (1, 2, 3):
+        for t in _it.product(toks, repeat=n):
+            if n == 3 and tier == "quick" and rng.random() > 0.25:
+                continue
+            raw = "".join(t)
+            yield "query-raw", ["rawx", raw, 0]
+            if all(ord(c) < 256 for c in raw):
+                yield "query-raw", ["rawx", raw, 1]
 
 
 def search_cases(tier, rng, mism):
@@ -127,6 +139,8 @@ def ENCODE(case):
     # untouched siblings of an "alias" case are the immutable views of the initial list
     if case[0] == "alias":
         return core.enc_line(["imm", case[1]])
+    if case[0] == "rawx":
+        return core.enc_line(["rawx", case[1]])
     return core.enc_line(case)
 
 
@@ -225,6 +239,17 @@ def impl(case):
         q = QueryParams([tuple(p) for p in case[1]])
         text = str(q)
         return [text, [[k, v] for k, v in QueryParams(text).multi_items()]]
+    if case[0] == "rawx":
+        raw = case[1].encode("latin-1") if case[2] else case[1]
+        try:
+            q = QueryParams(raw)
+            text = str(q)
+            q2 = QueryParams(text)
+            if q2 == q and q2.multi_items() == q.multi_items() and str(q2) == text and repr(q):
+                return ["roundtrip-holds"]
+            return ["roundtrip-fails", text, [[k, v] for k, v in q.multi_items()], [[k, v] for k, v in q2.multi_items()]]
+        except Exception as e:  # noqa
+            return ["roundtrip-raises", type(e).__name__]
     if case[0] == "imm":
         items = [tuple(p) for p in case[1]]
         return [views(MultiMapping(_shape(items, 1))), views(QueryParams(_shape(items, 2))), views(FormData(_shape(items, 3)))]
@@ -306,6 +331,10 @@ def spec_views(a):
 def oracle(case, obs):
     if obs and obs[0] == "driver-exception":
         return ("raises-" + str(obs[1]), "operation sequence raised %s: %s" % (obs[1], obs[2]))
+    if case[0] == "rawx":
+        if obs[0] != "roundtrip-holds":
+            return ("query-raw-roundtrip", "QueryParams(%r%s): %r" % (case[1], " as bytes" if case[2] else "", obs))
+        return None
     if case[0] == "qs":
         if [list(p) for p in obs[1]] != [list(p) for p in case[1]]:
             return ("query-string-roundtrip", "QueryParams(%r) prints as %r, which parses back to %r" % (case[1], obs[0], obs[1]))
@@ -340,6 +369,8 @@ def oracle(case, obs):
 
 
 def nontrivial(case, obs):
+    if case[0] == "rawx":
+        return "%" in case[1]
     if case[0] == "qs":
         return len(case[1]) > 0
     if case[0] == "alias":
